@@ -214,6 +214,19 @@ CHECKS = {
          "shorter than the 15 min retry budget; real-wire server restarts are not driven.",
     technique="TLA+ ring/bookmark model + TLC; fault-schedule replay of the real client/server pair in virtual time; TLC trace validation",
     ref="5.13"),
+ "C20": dict(
+    level="model_checking",
+    text="TLC exhaustively checks KeyStorage.tla (slots = blobs openable by one key pair, integrity tag over the blob sequence "
+         "in slot order, API calls, one adversarial edit of the serialized form per API-produced storage: alter a blob, add a "
+         "slot with a copied / garbage / empty blob, remove a slot, alter the tag): live slots recover the master key, no other "
+         "key does, guards (double initialise, overwrite, last slot), every single edit is detected by the next retrieval on "
+         "every slot. TLC-simulated sequences run on the real KeyStorage with freshly generated x25519 PGP key pairs, the "
+         "adversary editing the MarshalBinary output through the public protobuf message; TLC replays every step on the model "
+         "and judges success/failure of every API call and equality of the recovered master key (TraceKeyStorage.tla).",
+    note="Trusted: TLC, gopenpgp. Composite adversarial edits without a retrieval in between (e.g. renaming a slot = copy + "
+         "remove, which the HMAC cannot see because slot ids are not hashed) are outside the property's single-corruption quantifier.",
+    technique="TLA+ key storage model with adversary + TLC; model-based replay on the real KeyStorage; TLC trace validation",
+    ref="5.20"),
 }
 
 NOT_YET = "check not built yet in this round (planned, see DESIGN.md section 5)"
